@@ -12,6 +12,7 @@ import (
 	"go.opentelemetry.io/collector/component/componentstatus"
 	"go.opentelemetry.io/collector/confmap"
 	"go.opentelemetry.io/collector/connector"
+	"go.opentelemetry.io/collector/connector/forwardconnector"
 	"go.opentelemetry.io/collector/consumer"
 	"go.opentelemetry.io/collector/exporter"
 	"go.opentelemetry.io/collector/extension"
@@ -597,7 +598,7 @@ func (c *stubConnector) ConsumeMetrics(ctx context.Context, md pmetric.Metrics) 
 // connSupports says which (from,to) pairs a connector type implements.
 func connSupports(typ, from, to string) bool {
 	switch typ {
-	case "fwd":
+	case "fwd", "forward":
 		return from == to
 	case "conv":
 		return true
@@ -663,9 +664,11 @@ func (w *World) connectorFactories() map[component.Type]connector.Factory {
 		return connector.NewFactory(component.MustNewType(typ), func() component.Config { return &stubCfg{} }, opts...)
 	}
 	return map[component.Type]connector.Factory{
-		component.MustNewType("fwd"):  mk("fwd"),
-		component.MustNewType("conv"): mk("conv"),
-		component.MustNewType("l2m"):  mk("l2m"),
+		// the repository's real forward connector: it passes the SAME payload object on to the next pipelines
+		component.MustNewType("forward"): forwardconnector.NewFactory(),
+		component.MustNewType("fwd"):     mk("fwd"),
+		component.MustNewType("conv"):    mk("conv"),
+		component.MustNewType("l2m"):     mk("l2m"),
 	}
 }
 
